@@ -1,5 +1,6 @@
 mod c09sem;
 mod c01;
+mod c01probes;
 mod c02mut;
 mod c03;
 mod mini;
